@@ -46,6 +46,12 @@ def stats_vector(kind, n, seed):
         v = np.full(n, float(rng.integers(1, 10)))
     elif kind == "ties":
         v = rng.integers(0, 4, n).astype(np.float64)
+    elif kind == "spike":
+        # all channels equal but one or two that stand out by exactly an integer (often exactly the threshold): the
+        # inter-quartile range of the lagged differences is 0, the unit-scale fallback makes z that integer
+        v = np.full(n, float(rng.integers(1, 10)))
+        for _ in range(int(rng.integers(1, 3))):
+            v[rng.integers(0, n)] += float(rng.choice([1, 2, 3, 5, 8, -2, -3]))
     else:
         v = rng.normal(10, 1, n)
         if kind == "outliers":
@@ -105,7 +111,7 @@ def strat_algebra(draw):
         st.fixed_dictionaries({"op": st.just("funcn"), "f": st.sampled_from(sorted(FUNCS))}),
     ), min_size=1, max_size=8))
     ch = draw(vs.channelisation(n))
-    return {"n": n, "kinds": [draw(st.sampled_from(["noise", "outliers", "outliers", "equal", "ties"])) for _ in range(3)],
+    return {"n": n, "kinds": [draw(st.sampled_from(["noise", "outliers", "outliers", "equal", "ties", "spike", "spike"])) for _ in range(3)],
             "seed": draw(st.integers(0, 2**31 - 1)), "thr": draw(st.sampled_from([0.6, 1.0, 2.0, 3.0, 5.0, 8.0])),
             "ops": ops, "fch1": ch["fch1"], "foff": ch["foff"]}
 
